@@ -261,7 +261,8 @@ class Body:
         if self._dom is not None:
             return self._dom
         classic = self._classic_dominators()
-        self._dom = DomMap(self, classic) if self.raw.get('inlined') else classic
+        # (also for plain bodies: `let ok = a && b; if !ok { return Err }` joins in a flag whose constant value decides the test)
+        self._dom = DomMap(self, classic)
         return self._dom
 
     def _ps_dominates(self, a, bi):
